@@ -145,7 +145,9 @@ def inject(prog, kind, rnd: random.Random):
             insert(_bodies(p, lambda l, c: True), ("macro", "rec_b", [("int", 1)]))
         return p
     if kind == "too_few_macro_args":
-        p["macros"].append(("two_args", ["$x", "$y"], [("op", "op_771", [("const", "$x"), ("const", "$y")], None)]))
+        # (in a third of the cases the body never mentions the parameter whose argument is missing)
+        used = [("const", "$x"), ("const", "$y")] if rnd.random() < 0.67 else [("const", "$x")]
+        p["macros"].append(("two_args", ["$x", "$y"], [("op", "op_771", used, None)]))
         bodies = _bodies(p, lambda l, c: True)
         if not bodies:
             return None
